@@ -586,8 +586,8 @@ def run_property(prop, tier, seed, a):
         hs = select(pdef, tier, seed, a.only)
         jobs = [Job(prop, h, tier, workdir, gen_dir, cfgs) for h in hs]
         log(f"== {prop} tier={tier} seed={seed}: {len(jobs)} harnesses, repo {repo_rev[:8]}{'+dirty' if repo_dirty else ''}")
-        if not inconclusive or violations:
-            schedule(jobs, a.jobs, a.mem)
+        # a failed native preparation step is reported (inconclusive) but never replaces the solver checks
+        schedule(jobs, a.jobs, a.mem)
         results = [j.result for j in jobs if j.result]
         # oracle dependencies: a property harness only counts if its oracle equivalences passed
         by_name = {r["harness"]: r for r in results}
